@@ -238,11 +238,12 @@ func (e *Evidence) Violations() int { e.mu.Lock(); defer e.mu.Unlock(); return e
 // Finish writes the evidence and returns the process exit code.
 func (e *Evidence) Finish() int {
 	e.Write()
-	if infraFlag.Load() {
-		return 2
-	}
+	// a violation that was found stands, whatever else remained inconclusive
 	if e.Violations() > 0 {
 		return 1
+	}
+	if infraFlag.Load() {
+		return 2
 	}
 	return 0
 }
